@@ -84,11 +84,13 @@ def run(res, tier):
     bad = []; evals = 0; dist = {}; samples = []
     for cid in range(n):
         ns, nu, X = gen_data(rng)
+        epflag = True
         if cid % 4 == 3:
-            # whole-number data handed over as an integer-typed matrix (the fit depends on the values only)
+            # whole-number data handed over as an integer-typed matrix (the fit depends on the values only); without an
+            # episode column, because splitting into episodes converts to float
             X = np.round(4 * X)
-            X[:, 0] = np.round(X[:, 0] / 4)
-            X = X.astype(np.int64)
+            X = X[X[:, 0] == X[0, 0]][:, 1:].astype(np.int64)
+            epflag = False
         k = ns + nu
         cfgs = []
         for mode in ('projected', 'exact'):
@@ -102,7 +104,7 @@ def run(res, tier):
             reg = mk()
             desc = repr(reg)
             try:
-                reg.fit(X, n_inputs=nu, episode_feature=True)
+                reg.fit(X, n_inputs=nu, episode_feature=epflag)
                 common.note_case('fit', repr(reg), X)
             except Exception as e:  # noqa  (degenerate truncations the estimator itself rejects)
                 dist['fit_rejected'] = dist.get('fit_rejected', 0) + 1
@@ -125,6 +127,33 @@ def run(res, tier):
             if len(samples) < 2:
                 samples.append(dict(regressor=desc, n_states=ns, n_inputs=nu, rows=int(X.shape[0]),
                                     eigenvalues=[str(z) for z in reg.eigenvalues_]))
+    # one Tsvd object handed to two regressors: each must work on its own copy (the published SVD of the first must
+    # not change when the second is fitted, and the user's object must stay unfitted)
+    for h in range(4 if tier == 'quick' else 20):
+        ns_, nu_, X1 = gen_data(rng); _, _, X2 = gen_data(rng)
+        if X2.shape[1] != X1.shape[1] or nu_ != 0 and h % 2 == 0:
+            X2 = 3.0 * X1[::-1].copy(); X2[:, 0] = X1[:, 0]
+        t = pykoop.Tsvd('cutoff', 0.2)
+        try:
+            if nu_ == 0 and h % 2 == 0:
+                r1 = pykoop.Dmd(tsvd=t).fit(X1, n_inputs=0, episode_feature=True)
+                before = [r1.tsvd_.singular_values_.copy()]
+                pykoop.Dmd(tsvd=t).fit(X2, n_inputs=0, episode_feature=True)
+                after = [r1.tsvd_.singular_values_]
+            else:
+                r1 = pykoop.Dmdc(tsvd_unshifted=t, tsvd_shifted=t).fit(X1, n_inputs=nu_, episode_feature=True)
+                before = [r1.tsvd_unshifted_.singular_values_.copy(), r1.tsvd_shifted_.singular_values_.copy()]
+                pykoop.Dmdc(tsvd_unshifted=t, tsvd_shifted=t).fit(X2, n_inputs=nu_, episode_feature=True)
+                after = [r1.tsvd_unshifted_.singular_values_, r1.tsvd_shifted_.singular_values_]
+        except Exception:  # noqa
+            dist['fit_rejected'] = dist.get('fit_rejected', 0) + 1
+            continue
+        evals += 1
+        dist['shared_tsvd_object'] = dist.get('shared_tsvd_object', 0) + 1
+        if hasattr(t, 'singular_values_') or any(a.shape != b.shape or not np.array_equal(a, b) for a, b in zip(after, before)):
+            bad.append(dict(what='fitting a second regressor built with the same Tsvd object changed the truncated SVD published by the '
+                                 'first one (retained rank / singular values no longer belong to its operator), or fitted the user\'s object',
+                            regressor=repr(r1), user_object_fitted=hasattr(t, 'singular_values_'), X=X1.tolist()))
     res.coverage.update(
         programs=evals, disagreements_checked=evals, evaluations=evals, distinct_nontrivial=evals,
         rule=('Dmd / Dmdc x {exact, projected} x truncation of both SVDs (none, economy, rank, cutoff, unknown_noise) x '
